@@ -149,6 +149,10 @@ func (s Spec) New(reg core.MetricRegistry, name string, tags ...string) core.Lim
 			thr = func(int) int { return -1 }
 		case "increase=plus2":
 			inc = func(l float64) float64 { return l + 2 }
+		case "increase=capped": // a soft cap: the moderate step stops growing at 50 (the aggressive +beta step is not affected)
+			inc = func(l float64) float64 { return math.Min(l+1, 50) }
+		case "increase=none": // the moderate step switched off
+			inc = func(l float64) float64 { return l }
 		}
 		var noLoad core.MeasurementInterface
 		if s.NoLoad == "single" {
@@ -188,7 +192,7 @@ func LargeTables() bool {
 }
 
 // VegasFuncs are the caller-supplied step / threshold functions a Vegas spec may carry (constructor arguments).
-var VegasFuncs = []string{"decrease=half", "decrease=minus3", "threshold=0", "threshold=-1", "increase=plus2"}
+var VegasFuncs = []string{"decrease=half", "decrease=minus3", "threshold=0", "threshold=-1", "increase=plus2", "increase=capped", "increase=none"}
 
 // Kinds lists the adaptive algorithms.
 var Kinds = []string{"aimd", "vegas", "gradient", "gradient2"}
